@@ -27,7 +27,7 @@ CONSTANTS Shapes,        \* subset of {"top", "child", "sibs", "chain"}
           SinkOps,       \* subset of BOOLEAN
           Names, Widths, MaxSigs,
           Kinds,         \* subset of {"none", "alias", "not", "sync"}
-          RdMode,        \* "top": read in top or nowhere; "one": nowhere or one module; "any": any set of modules
+          RdMode,        \* "top1": read in top; "top": in top or nowhere; "one": nowhere or one module; "any": any set
           PortModes,     \* subset of {"no", "auto", "named"}
           ExtraKinds, ExtraNames, MaxExtras,
           PrivatePortsAllowed   \* FALSE; TRUE is the mutant that must violate Legit
@@ -41,6 +41,7 @@ NM == Len(Parent(shape))
 Mods == 1..NM
 
 RdChoices == IF RdMode = "top" THEN {{}, {1}}
+             ELSE IF RdMode = "top1" THEN {{1}}
              ELSE IF RdMode = "one" THEN {{}} \cup {{k} : k \in Mods}
              ELSE SUBSET Mods
 
